@@ -7,7 +7,7 @@ import z3
 
 from .. import load
 from ..findings import regions_for
-from ..sarray import NPProxy, SArray, SFB, SRl, SBV, elem_eq
+from ..sarray import NPProxy, SArray, SFB, SRl, SBV, SIV, elem_eq
 from ..sbytes import SBytes, StructProxy, Part
 from ..values import SInt
 
@@ -50,6 +50,7 @@ def configs(tier, seed):
     # through the command line with --coord-transform (mirroring and non-mirroring, 12 and 16 elements)
     out.append(dict(harness="mm_to_nm", N=3, e=0, transform="2,0,0,1,0,-1,0,0,0,0,0.5,3", cost=2))
     out.append(dict(harness="mm_to_nm", N=2, e=-1, transform="0,1,0,-2,1,0,0,0.5,0,0,-1,4,0,0,0,1", cost=2))
+    out.append(dict(harness="mm_to_nm", N=2, e=0, ptype="int32", transform="0.5,0,0,0.25,0,1,0,0,0,0,-1.5,3", cost=2))    # integer point set, fractional result
     out.append(dict(harness="fragments", cost=1))
     for N, M, A in ((0, 0, 1), (1, 1, 2), (2, 1, 3), (3, 2, 3)) + (((4, 3, 4),) if tier == "thorough" else ()):
         out.append(dict(harness="vtk", N=N, M=M, A=A, cost=2 + A, none_attrs=(N == 1)))
@@ -230,9 +231,9 @@ def H_mm_to_nm(ctx, cfg):
         m = z3.Int("p_" + "_".join(map(str, idx)))
         ctx.assume(z3.And(m > -16, m < 16))          # 10^6 * m * 2^e stays exactly representable in float32
         ms.append(m)
-        a[idx] = SDy(m, e, 5, real_np.float32)
+        a[idx] = SDy(m, e, 5, real_np.float32) if cfg.get("ptype", "float32") == "float32" else SIV(m, cfg["ptype"])
     ctx.input("mantissas", ms)
-    pts = SArray(a, real_np.float32)
+    pts = SArray(a, real_np.dtype(cfg.get("ptype", "float32")))        # GIfTI point sets are float32 by convention, integer types load too
     tris = SArray.from_elems([SBV.const(i % N, "int32") for i in range(3)], "int32", (1, 3))
     gii = types.SimpleNamespace(get_arrays_from_intent=lambda name: [types.SimpleNamespace(data=pts if "POINTSET" in name else tris)])
     mesh = load.patch("mesh", np=W.npx, struct=StructProxy())
@@ -276,7 +277,7 @@ def H_mm_to_nm(ctx, cfg):
         det = (R[0][0] * (R[1][1] * R[2][2] - R[1][2] * R[2][1]) - R[0][1] * (R[1][0] * R[2][2] - R[1][2] * R[2][0])
                + R[0][2] * (R[1][0] * R[2][1] - R[1][1] * R[2][0]))
         for i in range(N):
-            ins = [a[i, c].value_num_den() for c in range(3)]
+            ins = [a[i, c].value_num_den() if hasattr(a[i, c], "value_num_den") else (a[i, c].v, 1) for c in range(3)]
             for r in range(3):
                 n, d = v.a[i, r].value_num_den()
                 # stored = 10^6 * (sum_c R[r][c] * in_c + T[r]); everything scaled to integers
@@ -457,7 +458,7 @@ def replay(cfg, cex):
         import nibabel.gifti as gi
         from fractions import Fraction
         N, e = cfg["N"], cfg["e"]
-        pts = real_np.array([float(Fraction(m) * Fraction(2) ** e) for m in inp["mantissas"]], dtype=real_np.float32).reshape(N, 3)
+        pts = real_np.array([float(Fraction(m) * Fraction(2) ** e) for m in inp["mantissas"]], dtype=cfg.get("ptype", "float32")).reshape(N, 3)
         tris = real_np.array([[i % N for i in range(3)]], dtype=real_np.int32)
         mod = load.mod("scripts.mesh_to_precomputed")
         pio = load.mod("precomputed_io")
